@@ -8,11 +8,12 @@
    form (gopts: po_fix_fmt = po_fix_dims = true), which is the form of the current source.
    Reader objects (C09's world relation): namespace = the labels of the rows, matrix = w_cm rows (taxon i -> row i),
    processed set = p_proc rows. *)
-From Coq Require Import ZArith List Bool.
+From Coq Require Import String ZArith List Bool.
 From DV Require Import Model.C20Model Proofs.C20GenCharModel Proofs.C20GenChar.
 From DV Require Import Model.PyPrims Model.C09AlphaTypes Model.C09Model Model.C09Prims Gen.CharIO
   Proofs.C09GenFasta Proofs.C09GenPhylip.
-From DV Require Model.Tokenizer Model.C20Nexus2 Model.C20NexusPrims Gen.NexusChars Proofs.C20GenNexus Proofs.C20GenNexusStates.
+From DV Require Model.Tokenizer Model.C20Nexus2 Model.C20NexusPrims Model.C20NexusPrims2 Gen.NexusChars Proofs.C20GenNexus Proofs.C20GenNexusStates
+  Proofs.C20GenNexusMatrix Proofs.C20GenNexusMatrix2.
 Import ListNotations.
 Open Scope Z_scope.
 
@@ -171,3 +172,85 @@ Theorem gen_read_character_states_is_model :
   end.
 Proof. exact C20GenNexusStates.gen_read_character_states_rel. Qed.
 Print Assumptions gen_read_character_states_is_model.
+
+(* ========================================================================================================= *)
+(* the MATRIX statement: NexusReader._parse_dimensions_statement, _get_taxon, _process_discrete_matrix_data,   *)
+(* _parse_matrix_statement generated from the source (primitives Model/C20NexusPrims2.v)                       *)
+(* ========================================================================================================= *)
+
+(* NexusReader._parse_dimensions_statement IS the skeleton's parse_dimensions (NTAX / NCHAR assignments, the
+   exception raised for a missing '=' / a non-numeric value / BEGIN, tokenizer position), on every state *)
+Theorem gen_parse_dimensions_is_parse_dimensions :
+  forall (upper : Tokenizer.str -> Tokenizer.str) (dval : Z -> option Z) (F : nat) (st : C20Nexus2.nstate),
+  NexusChars.NexusReader_parse_dimensions_statement upper dval F st = C20Nexus2.parse_dimensions upper dval F st.
+Proof. exact C20GenNexusMatrix.gen_parse_dimensions_eq. Qed.
+Print Assumptions gen_parse_dimensions_is_parse_dimensions.
+
+(* NexusReader._get_taxon IS the skeleton's get_taxon: the label is looked up; a new label is added while the
+   namespace holds fewer than NTAX members (or NTAX is not set), else TooManyTaxaError *)
+Theorem gen_get_taxon_is_get_taxon :
+  forall (lower : Tokenizer.str -> Tokenizer.str) (ti : nat) (tok : option Tokenizer.str) (st : C20Nexus2.nstate),
+  NexusChars.NexusReader_get_taxon lower ti tok st = C20Nexus2.get_taxon lower st ti (C20Nexus2.tok_text tok).
+Proof. exact C20GenNexusMatrix.gen_get_taxon_eq. Qed.
+Print Assumptions gen_get_taxon_is_get_taxon.
+
+(* NexusReader._parse_matrix_statement (with the generated _process_discrete_matrix_data, _get_taxon and
+   _read_character_states inside it) IS the skeleton's parse_matrix, in the form that has the closing row-length
+   check of the interleaved loop (fx_ildims = true): same reader state - tokenizer position, namespaces, the
+   matrix appended with every row length - or the same exception class, on every state and token stream and for
+   every loop budget.  fxc / fxa select the form of the two recorded defect sites that lie in UNTRANSLATED callees
+   (_read_continuous_character_values, _build_state_alphabet). *)
+Theorem gen_parse_matrix_is_parse_matrix :
+  forall (fxc fxa : bool) (upper lower : Tokenizer.str -> Tokenizer.str) (sym_ok : Z -> Z -> bool)
+         (is_float : Tokenizer.str -> bool) (F : nat) (st : C20Nexus2.nstate) (block_title link_title : option Tokenizer.str),
+  NexusChars.NexusReader_parse_matrix_statement fxc fxa upper lower sym_ok is_float F block_title link_title st
+  = C20Nexus2.parse_matrix (C20Nexus2.mkFix fxc fxa true) upper lower sym_ok is_float F st block_title link_title.
+Proof. exact C20GenNexusMatrix2.gen_parse_matrix_eq. Qed.
+Print Assumptions gen_parse_matrix_is_parse_matrix.
+
+(* `nexus_matrix_dims` (Props/C20.v) as a statement about the GENERATED MATRIX statement - no hypothesis on the
+   form of the reader is left: every MATRIX statement the generated code accepts appends ONE matrix, every row of
+   which holds exactly the NCHAR in force (the matrices read before are untouched) *)
+Theorem gen_nexus_matrix_dims :
+  forall (fxc fxa : bool) (upper lower : Tokenizer.str -> Tokenizer.str) (sym_ok : Z -> Z -> bool)
+         (is_float : Tokenizer.str -> bool) (F : nat) (st : C20Nexus2.nstate) (block_title link_title : option Tokenizer.str)
+         (st' : C20Nexus2.nstate) (nchar : Z),
+  0 <= nchar ->
+  NexusChars.NexusReader_parse_matrix_statement fxc fxa upper lower sym_ok is_float F block_title link_title st
+    = C20Nexus2.ROk st' ->
+  C20Nexus2.n_nchar st = Some nchar ->
+  exists m, C20Nexus2.n_mats st' = C20Nexus2.n_mats st ++ [m]
+            /\ Forall (fun r => snd r = nchar) (C20Nexus2.m_rows m).
+Proof. exact C20GenNexusMatrix2.gen_nexus_matrix_dims_l. Qed.
+Print Assumptions gen_nexus_matrix_dims.
+
+(* `nexus_matrix_rows` about the GENERATED MATRIX statement: the rows of an accepted matrix are DISTINCT taxa of its
+   namespace, at most max(NTAX, members the namespace had before) of them (no lower bound: finding rows-fewer) *)
+Theorem gen_nexus_matrix_rows :
+  forall (fxc fxa : bool) (upper lower : Tokenizer.str -> Tokenizer.str) (sym_ok : Z -> Z -> bool)
+         (is_float : Tokenizer.str -> bool) (F : nat) (st : C20Nexus2.nstate) (block_title link_title : option Tokenizer.str)
+         (st' : C20Nexus2.nstate) (ntax : Z),
+  NexusChars.NexusReader_parse_matrix_statement fxc fxa upper lower sym_ok is_float F block_title link_title st
+    = C20Nexus2.ROk st' ->
+  C20Nexus2.n_ntax st = Some ntax ->
+  exists m, C20Nexus2.n_mats st' = C20Nexus2.n_mats st ++ [m] /\ NoDup (map fst (C20Nexus2.m_rows m))
+            /\ Z.of_nat (length (C20Nexus2.m_rows m))
+               <= Z.max ntax (Z.of_nat (length (C20Nexus2.tns_labels st (C20Nexus2.m_tns m)))).
+Proof. exact C20GenNexusMatrix2.gen_nexus_matrix_rows_l. Qed.
+Print Assumptions gen_nexus_matrix_rows.
+
+(* non-vacuity: the generated MATRIX statement run on concrete documents (NTAX=2 NCHAR=4, DNA): a sequential and an
+   interleaved matrix are accepted with rows of length 4 for taxa 0 and 1; a short sequential row, a short
+   interleaved row and a third taxon are DataParseErrors *)
+Theorem gen_matrix_examples :
+  C20GenNexusMatrix2.ex_rows (C20GenNexusMatrix2.ex_run false " A ACGT B AC GT ; END;"%string) = Some [[(0%nat, 4); (1%nat, 4)]]
+  /\ C20GenNexusMatrix2.ex_rows
+       (C20GenNexusMatrix2.ex_run true (" A AC" ++ C20GenNexusMatrix2.nl ++ "B AC" ++ C20GenNexusMatrix2.nl ++ "A GT"
+                                        ++ C20GenNexusMatrix2.nl ++ " B GT" ++ C20GenNexusMatrix2.nl ++ "; END;")%string)
+     = Some [[(0%nat, 4); (1%nat, 4)]]
+  /\ C20GenNexusMatrix2.ex_run false " A ACGT B ACG ; END;"%string = C20Nexus2.RErr ParseErr
+  /\ C20GenNexusMatrix2.ex_run true (" A AC" ++ C20GenNexusMatrix2.nl ++ "B AC" ++ C20GenNexusMatrix2.nl ++ "A GT"
+                                     ++ C20GenNexusMatrix2.nl ++ "; END;")%string = C20Nexus2.RErr ParseErr
+  /\ C20GenNexusMatrix2.ex_run false " A ACGT B ACGT C ACGT ; END;"%string = C20Nexus2.RErr ParseErr.
+Proof. exact C20GenNexusMatrix2.gen_matrix_examples_l. Qed.
+Print Assumptions gen_matrix_examples.
